@@ -704,7 +704,7 @@ const GEOMETRY: &[Wanted] = &[
     Wanted {
         file: "position.rs",
         ty: "Position",
-        fns: &["extent", "three_point", "x_def", "y_def", "to_bbox", "has_x_position", "has_y_position", "x", "y", "translate"],
+        fns: &["extent", "three_point", "x_def", "y_def", "to_bbox", "has_x_position", "has_y_position", "x", "y"],
     },
 ];
 
